@@ -268,3 +268,46 @@ extern "C" void vx_unparse()
   verif_assert(s.size() == e.size() && s.compare(e) == 0, "C12: operator node prints as [(]a OP b[)] with its own spelling, parenthesised iff the source was");
 }
 #endif
+
+// C04-K2 / C05-K2: constant nodes survive evaluation: an operator over the real `null` / `true` / `false` constant nodes is
+// evaluated twice with a statement end in between; the constants must still mean what they meant, and the second result
+// must equal the first.
+#if defined(VX_CONSTNODE) && !defined(VX_UNARY)
+#include <blocc/builtin/builtin_null.h>
+#include <blocc/builtin/builtin_true.h>
+#include <blocc/builtin/builtin_false.h>
+extern "C" void vx_constnode()
+{
+  static Context& ctx = *new Context(1, 2);
+  Opd B; mk(B, VX_B, 1);
+  Expression* c =
+#if VX_CONSTNODE == 0
+      new NULLExpression();
+#elif VX_CONSTNODE == 1
+      new TRUEExpression();
+#else
+      new FALSEExpression();
+#endif
+  verif_assume(B.lval); B.v->to_lvalue(true);        /* the other operand is a variable: it survives both evaluations */
+  SymExpr* e2 = new SymExpr(B.v);
+#ifdef VX_CFIRST
+  VX_OP* op = new VX_OP(c, e2);
+#else
+  VX_OP* op = new VX_OP(e2, c);
+#endif
+  verif_known(KF_NULL_CONSTANT_OVERWRITTEN, VX_CONSTNODE == 0);
+  int r1 = -1, r2 = -1;      /* 0 false, 1 true, 2 null, 3 raised */
+  try { Value& r = op->value(ctx); r1 = r.isNull() ? 2 : (*r.boolean() ? 1 : 0); } catch (RuntimeError&) { r1 = 3; } catch (...) { verif_assert(false, "C01: only RuntimeError may leave an operator node"); return; }
+  /* the constant still means what it meant */
+  Value& cv = c->value(ctx);
+#if VX_CONSTNODE == 0
+  verif_assert(cv.isNull() && cv.type() == Value::type_no_type, "C04/C05: evaluating an expression never changes what the literal null means");
+#else
+  verif_assert(!cv.isNull() && cv.type() == Value::type_boolean && *cv.boolean() == (VX_CONSTNODE == 1), "C04/C05: evaluating an expression never changes a boolean constant of the program text");
+#endif
+  ctx.onStatementEnd(nullptr);
+  try { Value& r = op->value(ctx); r2 = r.isNull() ? 2 : (*r.boolean() ? 1 : 0); } catch (RuntimeError&) { r2 = 3; } catch (...) { verif_assert(false, "C01: only RuntimeError may leave an operator node"); return; }
+  VX_WITNESS();
+  verif_assert(r1 == r2, "C04/C05: evaluating the same expression twice in the same state gives equal results");
+}
+#endif
